@@ -48,6 +48,7 @@ type Contract struct {
 	Prune    bool        // follow only feasible branches (solver check at each symbolic branch)
 	ElemPtrs bool   // pointers to slice elements are terms; type tests on symbolic dynamic types are decided by refutation
 	Timeout  int    // solver timeout (s) for this function's obligations when larger than the tier's
+	Instance []string // with axiomatize: the axiom is the stated INSTANCE of the verified contract ("forall <binders>", "<param> := <expr>", "heap <id> := <base> <arr>, ...")
 	Axiomatize string // lemma functions: "[group] name {triggers}" - the verified contract (forall parameters: requires ==> ensures) becomes an axiom of that group
 	Recursion int      // inlined functions: self-recursion is inlined up to this call depth (statically bounded recursion)
 	NoLockLedger bool  // the lock-discipline obligations are not part of this function's claim
@@ -101,6 +102,7 @@ type AxiomDecl struct {
 	Clause
 	Pkg   *types.Package
 	Lemma bool
+	HeapInst [][3]string // instance form of a lemma function's axiom: heap id, base, bound array variable
 	ByFunc string  // proved by verifying this lemma function (no separate solver obligation)
 	From  []string // lemmas: the groups it is proved from (default: its own group, without itself being available)
 	term  string
@@ -111,7 +113,7 @@ var propRe = regexp.MustCompile(`^\[((?:C[0-9]+\s*)+)\]\s*(.*)$`)
 
 var keywords = map[string]bool{"func": true, "iface": true, "property": true, "use": true, "requires": true, "ensures": true,
 	"loop": true, "modifies": true, "trusted": true, "inline": true, "pure": true, "axiom": true, "lemma": true,
-	"ghost": true, "smt": true, "let": true, "extern": true, "macro": true, "rangeinv": true, "at": true, "dispatch": true, "nolockledger": true, "recursion": true, "prune": true, "elemptrs": true, "timeout": true, "axiomatize": true, "logical": true, "dyn": true, "foreach": true, "chan": true, "site": true, "nopanic": true, "end": true, "note": true, "params": true}
+	"ghost": true, "smt": true, "let": true, "extern": true, "macro": true, "rangeinv": true, "at": true, "dispatch": true, "nolockledger": true, "recursion": true, "prune": true, "elemptrs": true, "timeout": true, "axiomatize": true, "instance": true, "logical": true, "dyn": true, "foreach": true, "chan": true, "site": true, "nopanic": true, "end": true, "note": true, "params": true}
 
 func (e *Engine) loadContracts(dir string, pkg *types.Package) error {
 	path := filepath.Join(dir, "verif_contracts.go")
@@ -278,6 +280,8 @@ func (e *Engine) loadContracts(dir string, pkg *types.Package) error {
 			cur.Timeout, _ = strconv.Atoi(strings.TrimSpace(rest))
 		case "axiomatize":
 			cur.Axiomatize = strings.TrimSpace(rest)
+		case "instance":
+			cur.Instance = append(cur.Instance, strings.TrimSpace(rest))
 		case "logical":
 			fs := strings.SplitN(strings.TrimSpace(rest), " ", 2)
 			if len(fs) != 2 {
@@ -499,6 +503,20 @@ func (e *Engine) resolveType(pkg *types.Package, s string) (types.Type, error) {
 		return types.Typ[types.String], nil
 	case "Loc":
 		return specInt, nil
+	}
+	if strings.HasPrefix(s, "Arr_") {
+		// Arr:T - the contents of one backing array of elements T (a value of the element heap E:T at one base)
+		el, err := e.resolveType(pkg, s[4:])
+		if err != nil {
+			return nil, err
+		}
+		k := typeKey(el)
+		if a, ok := arrSorts[k]; ok {
+			return a, nil
+		}
+		a := &SpecSort{Name: "Arr:" + k, Sort: "(Array Int " + e.sortOf(el) + ")", Elem: el}
+		arrSorts[k] = a
+		return a, nil
 	}
 	if strings.HasPrefix(s, "p9p.") && pkg.Name() == "p9p" {
 		s = s[4:]
